@@ -2,6 +2,8 @@ package c07
 
 import (
 	"fmt"
+	"os"
+	"path/filepath"
 	"strings"
 	"testing"
 
@@ -16,7 +18,7 @@ import (
 // only parsed and formatted (no type check), so they may name packages and
 // identifiers that do not exist.
 
-var zooImports = []string{`import "image"`, `import "strings"`, "import (\n\t\"os\"\n\t\"fmt\"\n\t\"math/bits\"\n)", "import (\n\tb \"bytes\"\n\n\t\"a/z\"\n\t\"a/b\"\n)", ""}
+var zooImports = []string{`import "image"`, `import "strings"`, "import (\n\t\"os\"\n\t\"fmt\"\n\t\"math/bits\"\n)", "import (\n\t\"bytes\" => b\n\n\t\"a/z\"\n\t\"a/b\"\n)", "import \"math/bits\" => _\nimport \"strings\" => stringspkg", ""}
 
 var zooDecls = []string{
 	"const K = 10",
@@ -150,6 +152,10 @@ func TestSyntaxZoo(t *testing.T) {
 		r, key, what, domain := judge(k)
 		if domain != "" {
 			s.Counter("rejected_by_domain/"+strings.SplitN(domain, ":", 2)[0], 1)
+			if dir := os.Getenv("VERIF_DEBUG_DIR"); dir != "" {
+				os.MkdirAll(dir, 0o755)
+				os.WriteFile(filepath.Join(dir, fmt.Sprintf("zoo-%x.wa", core.Hash64(src))), []byte(src), 0o644)
+			}
 			out++
 			t.Skip(domain)
 		}
